@@ -265,6 +265,67 @@ def realignment_is_model(input_mat, dim, result):
     return None
 
 
+def _kraus_form(phi_op):
+    """Resolve an accepted Kraus-list form to (A ops, B ops) or None when the form is outside the model (mirrors the documented forms only)."""
+    if not isinstance(phi_op, list) or not phi_op:
+        return None
+    if all(_is_numeric(k) and k.ndim == 2 for k in phi_op):
+        return list(phi_op), list(phi_op)
+    if not all(isinstance(k, (list, tuple)) for k in phi_op):
+        return None
+    lens = {len(k) for k in phi_op}
+    flat = [m for k in phi_op for m in k]
+    if not all(_is_numeric(m) and m.ndim == 2 for m in flat):
+        return None
+    if lens == {1} or (len(phi_op) == 1 and len(phi_op[0]) > 2):
+        return flat, flat
+    if lens == {2}:
+        return [k[0] for k in phi_op], [k[1] for k in phi_op]
+    return None
+
+
+@safe
+def apply_channel_is_action(mat, phi_op, result):
+    if not _is_numeric(mat) or mat.ndim != 2:
+        return _symbolic("apply_channel", mat)
+    res = np.asarray(result)
+    if _is_numeric(phi_op) and phi_op.ndim == 2:
+        r, c = mat.shape
+        if phi_op.shape[0] % r or phi_op.shape[1] % c:
+            return None
+        dor, doc = phi_op.shape[0] // r, phi_op.shape[1] // c
+        exp = np.einsum("ij,iajb->ab", mat, phi_op.reshape(r, dor, c, doc))
+        form = "choi"
+    else:
+        ab = _kraus_form(phi_op)
+        if ab is None:
+            CTX.evals["contract:apply_channel:outside-model"] += 1
+            return None
+        exp = ref.apply_kraus(mat, ab[0], ab[1])
+        form = "kraus"
+    dev = float(np.abs(res - exp).max()) / (1 + float(np.abs(exp).max())) if res.shape == np.shape(exp) else float("inf")
+    CTX.check("contract:apply_channel", dev <= 1e-9, dev=dev, tol=1e-9, sig=("apply", form, mat.shape[0] != mat.shape[1]), nt=True, mech="apply_channel:action[" + form + "]",
+              detail=None if dev <= 1e-9 else {"mat": mat, "form": form, "got": res, "want": exp})
+    return None
+
+
+@safe
+def kraus_to_choi_is_definition(kraus_ops, sys, result):
+    if sys != 2:
+        return None
+    ab = _kraus_form(kraus_ops)
+    if ab is None:
+        CTX.evals["contract:kraus_to_choi:outside-model"] += 1
+        return None
+    a_ops, b_ops = ab
+    exp = ref.choi_of(a_ops, b_ops, a_ops[0].shape[1], b_ops[0].shape[1])
+    res = result.toarray() if hasattr(result, "toarray") else np.asarray(result)
+    dev = float(np.abs(res - exp).max()) / (1 + float(np.abs(exp).max())) if res.shape == np.shape(exp) else float("inf")
+    CTX.check("contract:kraus_to_choi", dev <= 1e-9, dev=dev, tol=1e-9, sig=("k2c", len(a_ops) > 1, a_ops is not b_ops), nt=True, mech="kraus_to_choi:definition[internal-call]",
+              detail=None if dev <= 1e-9 else {"got": res, "want": exp})
+    return None
+
+
 TARGETS = {
     "permute_systems": ("toqito.perms.permute_systems", "permute_systems", permute_is_relabelling, True),
     "swap": ("toqito.perms.swap", "swap", swap_is_transposition, False),
@@ -272,7 +333,12 @@ TARGETS = {
     "partial_trace": ("toqito.channels.partial_trace", "partial_trace", partial_trace_is_contraction, True),
     "partial_transpose": ("toqito.channels.partial_transpose", "partial_transpose", partial_transpose_moves_indices, True),
     "realignment": ("toqito.channels.realignment", "realignment", realignment_is_model, False),
+    "apply_channel": ("toqito.channel_ops.apply_channel", "apply_channel", apply_channel_is_action, False),
+    "kraus_to_choi": ("toqito.channel_ops.kraus_to_choi", "kraus_to_choi", kraus_to_choi_is_definition, False),
 }
+
+INDEX_CONTRACTS = ["permute_systems", "swap", "permutation_operator", "partial_trace", "partial_transpose", "realignment"]
+CHANNEL_CONTRACTS = ["apply_channel", "kraus_to_choi"]
 
 
 def install(ctx, names=None):
@@ -280,7 +346,7 @@ def install(ctx, names=None):
     global CTX
     CTX = ctx
     bound = {}
-    for name in names or TARGETS:
+    for name in names or INDEX_CONTRACTS:
         mod, fn, cond, reentrant = TARGETS[name]
         bound[name] = attach.attach(mod, fn, cond, reentrant)
     ctx.contract_rebinds = bound
